@@ -26,3 +26,14 @@ Definition pf_contract (a b pole res : list Qc) (s : Qc) : bool :=
 (* the transfer function value the real code reported satisfies a(s) G = b(s) *)
 Definition tf_eqb (a b : list Qc) (s g : Qc) : bool :=
   qc_eqb (Qcmult (pe (K:=QcF) a (length a - 1) s) g) (pe (K:=QcF) b (length b - 1) s).
+
+(* state-space extraction contract: for an excitation (X, U) of the substituted
+   resistive circuit solved by Lcapy itself, A X + B U are the derivatives it
+   reads off and C X + D U the outputs *)
+Definition dotQ (a b : list Qc) : Qc := fold_right Qcplus 0%Qc (map (fun p => Qcmult (fst p) (snd p)) (combine a b)).
+Definition mat_vecQ (M : list (list Qc)) (x : list Qc) : list Qc := map (fun row => dotQ row x) M.
+Fixpoint list_eqbQ (a b : list Qc) : bool :=
+  match a, b with [], [] => true | x :: a', y :: b' => qc_eqb x y && list_eqbQ a' b' | _, _ => false end.
+Definition addQ (a b : list Qc) : list Qc := map (fun p => Qcplus (fst p) (snd p)) (combine a b).
+Definition ss_exc_ok (A B C D : list (list Qc)) (X U dotx y : list Qc) : bool :=
+  list_eqbQ (addQ (mat_vecQ A X) (mat_vecQ B U)) dotx && list_eqbQ (addQ (mat_vecQ C X) (mat_vecQ D U)) y.
